@@ -216,6 +216,7 @@ class ModelBuild:
         self.finished = False
         self.pending = {}
         self.served_outputs = []    # output paths kept from the previous build
+        self.probes = {}
 
     # ------------------------------------------------------------------
     # virtual view
@@ -451,7 +452,23 @@ class ModelBuild:
         self.served_outputs.extend(self._replayed_outputs)
         if is_file:
             self.served_outputs.append(rec.path)
+        # reach probes: rarely hit shapes of served records
+        for r in rec.walk():
+            if r is rec:
+                continue
+            if r.kind == 'f' and r.status == 'raised':
+                self.probe('served-nested-failed-build_file')
+                if any(x.kind == 'f' and x.status == 'ok'
+                       for x in r.walk() if x is not r):
+                    self.probe('served-failed-build_file-with-nested-output')
+            elif r.status == 'raised':
+                self.probe('served-nested-failed-subbuild')
+            elif r.kind == 'f':
+                self.probe('served-nested-output')
         return rec, st
+
+    def probe(self, name):
+        self.probes[name] = self.probes.get(name, 0) + 1
 
     # ------------------------------------------------------------------
     # builder API used by the interpreter
